@@ -111,7 +111,7 @@ def run_native_batch(crates, filt='verif_native', timeout=3600, build_only=False
         fcntl.flock(lock, fcntl.LOCK_EX)
         try:
             src = _prepare_scratch()
-            env = dict(os.environ, CARGO_TARGET_DIR=os.path.join(CACHE, 'native-target'), CARGO_NET_OFFLINE='true',
+            env = dict(os.environ, CARGO_TARGET_DIR=os.path.join(CACHE, 'native-target'), CARGO_NET_OFFLINE='true', RUST_BACKTRACE='0',
                        RUSTFLAGS=os.environ.get('RUSTFLAGS', ''))
             for crate in crates:
                 t0 = time.time()
